@@ -36,7 +36,7 @@ STAGES = {
     "window_toggle": 1, "group_by": 0, "group_by_until": 1, "group_by_until_self": 0, "window_count_skipwin": 0, "window_boundaries_skipwin": 1, "partition_merge": 0, "group_join_count": 1, "join": 1,
     # multicast (C24), resources (C40), schedulers
     "share": 0, "publish_ref_count": 0, "replay_ref_count": 0, "publish_value_ref_count": 0, "publish_mapper": 0,
-    "using": 0, "finally_action": 0, "do_action": 0, "do_finally": 0, "do_on_dispose": 0,
+    "using": 0, "finally_action": 0, "finally_raises": 0, "do_action": 0, "do_finally": 0, "do_on_dispose": 0,
     "observe_on": 0, "subscribe_on": 0, "expand_take": 1, "exclusive": 1,
 }
 STAGE_NAMES = sorted(STAGES)
@@ -61,6 +61,20 @@ def gen_source(rng, hot, allow_never=True):
     return {"hot": hot, "msgs": msgs}
 
 
+def _no_sibling_after_failing_cleanup(stages):
+    """A `finally_raises` stage makes the disposal of its branch raise.  CompositeDisposable.dispose (and Serial/ADO disposal) is
+    not exception-safe: a child whose dispose raises aborts the loop, so sibling subscriptions released AFTER it in the same
+    container stay open.  That is outside what C02/C03 quantify over (raising cleanup callbacks), so such a stage is only followed
+    by stages that open no further source subscription."""
+    seen = False
+    for st in stages:
+        if seen and STAGES.get(st[0], 0) >= 1:
+            st[0] = "take"
+        if st[0] == "finally_raises":
+            seen = True
+    return stages
+
+
 def gen_case(rng, max_stages=3, names=None):
     names = names or STAGE_NAMES
     nsrc = 4
@@ -70,7 +84,7 @@ def gen_case(rng, max_stages=3, names=None):
         stages.append([s, rng.randrange(0, 4), rng.randrange(1, nsrc)])
     if rng.random() < 0.3:   # early termination patterns (take/first/amb/take_until/…) at the end of the pipeline
         stages.append([rng.choice(TERMINATORS), rng.randrange(0, 4), rng.randrange(1, nsrc)])
-    return {"sources": [gen_source(rng, rng.random() < 0.5) for _ in range(nsrc)], "stages": stages}
+    return {"sources": [gen_source(rng, rng.random() < 0.5) for _ in range(nsrc)], "stages": _no_sibling_after_failing_cleanup(stages)}
 
 
 def gen_systematic(rng, per_stage=3):
@@ -81,6 +95,7 @@ def gen_systematic(rng, per_stage=3):
             c["stages"] = c["stages"][:1]
             if k:
                 c["stages"].append([rng.choice(TERMINATORS[:4]), rng.randrange(1, 4), rng.randrange(1, 4)])
+            _no_sibling_after_failing_cleanup(c["stages"])
             yield c
 
 
@@ -273,6 +288,15 @@ def build(case, sched, callback_log=None):
             inner = o
             o = rx.using(cb(idx, lambda: Disposable()), cb(idx, lambda r, inner=inner: inner))
         elif name == "finally_action": o = o.pipe(ops.finally_action(lambda: None))
+        elif name == "finally_raises":
+            # a cleanup callback that fails on its first call: the source subscription must be released all the same
+            first = [True]
+
+            def failing_cleanup(first=first):
+                if first[0]:
+                    first[0] = False
+                    raise SubscriberFailure("finally action failed")
+            o = o.pipe(ops.finally_action(failing_cleanup))
         elif name == "do_action": o = o.pipe(ops.do_action(cb(idx, lambda x: None)))
         elif name == "do_finally":
             from reactivex.operators import _do
